@@ -309,7 +309,7 @@ func tail(s string) string {
 
 func TestC20History(t *testing.T) {
 	const name = "TestC20History"
-	rec := evid.New("C20", name, "work lists of 2..14 encode/decode jobs (requests, responses, generic values, header-less typed values - CryptographicParameters with later-version fields - of mixed versions, and jobs whose calls fail: a request made unencodable by a negative interval, truncated documents) executed by three fresh child processes of the test binary: sequentially (reference), "+
+	rec := evid.New("C20", name, "work lists of 2..14 encode/decode jobs (requests and responses of versions 1.0..1.4 and, one in five, of a foreign version 0.x/2.x/3.x, generic values, header-less typed values - CryptographicParameters with later-version fields - of mixed versions, and jobs whose calls fail: a request made unencodable by a negative interval, truncated documents) executed by three fresh child processes of the test binary: sequentially (reference), "+
 		"concurrently from a cold start with G in {2,8,32} goroutines released together in a drawn permutation, and on one reused, cleared encoder per encoding after a drawn prefix of unrelated jobs and in reverse order; "+
 		"oracle: per-job digest of the four encodings and of the binary re-encoding after the XML and JSON round trips is identical across the children, every child's binary encoding equals the one the reference encoder predicts for the value alone, and in every child the XML and JSON documents of a typed message decode back to that binary encoding; the race-built variant additionally fails on any reported data race; "+
 		"non-trivial = the list holds messages of at least two different protocol versions or two different kinds; distinct by plan").Attach(t)
@@ -364,6 +364,7 @@ func TestC20History(t *testing.T) {
 				}
 			case 1, 2:
 				m := gen.Request(rt, gen.MsgOpts{Alphabet: "xml", TextSafe: true, MaxItems: 2})
+				foreignVersion(rt, &m.Header.ProtocolVersion)
 				w := &refwalk.Walker{}
 				tr, err := w.Message(m)
 				if err != nil {
@@ -373,6 +374,7 @@ func TestC20History(t *testing.T) {
 				versions[m.Header.ProtocolVersion.String()] = true
 			default:
 				m := gen.Response(rt, gen.MsgOpts{Alphabet: "xml", TextSafe: true, MaxItems: 2})
+				foreignVersion(rt, &m.Header.ProtocolVersion)
 				w := &refwalk.Walker{}
 				tr, err := w.Message(m)
 				if err != nil {
@@ -397,6 +399,15 @@ func TestC20History(t *testing.T) {
 			rec.Fail(rt, name, sig, err, p)
 		}
 	})
+}
+
+// foreignVersion: one message in five carries a header version outside 1.0..1.4 (a peer speaking 2.x, or 0.x / 3.x):
+// the codec treats versions as numbers, and whatever such a message leaves behind must not influence the others.
+func foreignVersion(rt *rapid.T, pv *kmip.ProtocolVersion) {
+	if rapid.IntRange(0, 4).Draw(rt, "foreign-version") == 0 {
+		pv.ProtocolVersionMajor = rapid.SampledFrom([]int32{0, 2, 2, 3}).Draw(rt, "major")
+		pv.ProtocolVersionMinor = int32(rapid.IntRange(0, 5).Draw(rt, "minor"))
+	}
 }
 
 func seq(n int) []int {
